@@ -54,6 +54,8 @@ def build_jobs(tier, rep):
     ops = A.opseqs(tier, rep)
     rnd = random.Random(C.SEED)
     seeds = gen.sample(l1, 9000 if q else 120000, C.SEED, keep_short=1500)
+    # Unicode look-alikes (ordinary characters for Markdown: the laws hold for them as for any letter)
+    seeds += [t for t in gen.twins(gen.sample(l1, 2500 if q else 40000, C.SEED + 6, keep_short=500), C.SEED, per_doc=1) if t.endswith("\n")]
     jobs = []
     for k, d in enumerate(seeds):
         # every seed: the two single-step forms with a rotating marker, plus one longer sequence
